@@ -418,6 +418,41 @@ func (c *UDPConn) SetReadBuffer(n int) error {
 }
 func (c *UDPConn) SetWriteBuffer(n int) error { return nil }
 
+// File stands in for (*net.UDPConn).File: the caller gets a real descriptor (one end of a socket pair, so that
+// getsockopt and friends work on it) and the simulated kernel keeps the socket alive for as long as that descriptor
+// is open, as the real kernel does with a dup(2)ed socket.
+func (c *UDPConn) File() (*os.File, error) {
+	if !c.ok() {
+		return nil, syscall.EINVAL
+	}
+	return dupFile(c.k, "udp")
+}
+
+func dupFile(k *Socket, netw string) (*os.File, error) {
+	fds, err := syscall.Socketpair(syscall.AF_UNIX, syscall.SOCK_STREAM|syscall.SOCK_CLOEXEC, 0)
+	if err != nil {
+		return nil, &net.OpError{Op: "file", Net: netw, Err: os.NewSyscallError("socketpair", err)}
+	}
+	raceDisable()
+	post(current(), &req{kind: rDup, sock: k, n: fds[1]})
+	raceEnable()
+	return os.NewFile(uintptr(fds[0]), netw+":simulated"), nil
+}
+
+// SyscallConn stands in for (*net.UDPConn).SyscallConn: Control runs against a throw-away kernel socket.
+func (c *UDPConn) SyscallConn() (syscall.RawConn, error) {
+	if !c.ok() {
+		return nil, syscall.EINVAL
+	}
+	fd, err := syscall.Socket(syscall.AF_INET, syscall.SOCK_DGRAM|syscall.SOCK_CLOEXEC, 0)
+	if err != nil {
+		return nil, os.NewSyscallError("socket", err)
+	}
+	rc := &rawConn{fd: fd}
+	runtime.SetFinalizer(rc, func(r *rawConn) { syscall.Close(r.fd) })
+	return rc, nil
+}
+
 func (c *UDPConn) LocalAddr() net.Addr {
 	if !c.ok() {
 		return nil
@@ -525,6 +560,13 @@ func (c *TCPConn) SetKeepAlive(bool) error            { return nil }
 func (c *TCPConn) SetLinger(int) error                { return nil }
 func (c *TCPConn) CloseWrite() error                  { return nil }
 func (c *TCPConn) CloseRead() error                   { return nil }
+
+func (c *TCPConn) File() (*os.File, error) {
+	if !c.ok() {
+		return nil, syscall.EINVAL
+	}
+	return dupFile(c.k, "tcp")
+}
 
 func (c *TCPConn) LocalAddr() net.Addr {
 	if !c.ok() {
